@@ -20,6 +20,9 @@ type c19Case struct {
 	// Suffix: this many fully masked bytes (0xc3) are appended to every pattern and to every
 	// input string: the same matching problem with patterns longer than a machine word
 	Suffix int `json:"suffix,omitempty"`
+	// Shared: masks (and values) that are prefixes of one another are handed in as prefixes of
+	// ONE array (same start address, different lengths), as an opcode table sharing its masks does
+	Shared bool `json:"shared,omitempty"`
 }
 
 type patOp struct {
@@ -99,6 +102,7 @@ func c19Run(c c19Case) (*eng.Fail, bool) {
 			}
 			strs = append(strs, t, t[:len(t)-1], s)
 		}
+		c.Shared = orig.Shared
 		f, ok := c19RunOn(c, strs)
 		if f != nil {
 			f.Sig += " (long patterns)"
@@ -106,13 +110,31 @@ func c19Run(c c19Case) (*eng.Fail, bool) {
 		}
 		return f, ok
 	}
-	return c19RunOn(c, strs)
+	f, ok := c19RunOn(c, strs)
+	if f != nil && c.Shared {
+		f.Sig += " (shared storage)"
+	}
+	return f, ok
 }
 
 func c19RunOn(c c19Case, strs [][]byte) (*eng.Fail, bool) {
 	ops := make([]*patOp, len(c.Pats))
 	for i, p := range c.Pats {
 		ops[i] = &patOp{i, c19Pat{append([]byte{}, p.Bytes...), append([]byte{}, p.Mask...)}}
+	}
+	if c.Shared {
+		share := func(get func(*patOp) *[]byte) {
+			for i := range ops {
+				for j := range ops {
+					a, b := get(ops[i]), get(ops[j])
+					if i != j && len(*a) > 0 && len(*a) <= len(*b) && string(*a) == string((*b)[:len(*a)]) && (len(*a) < len(*b) || i > j) {
+						*a = (*b)[:len(*a)] // a becomes a prefix of b's array
+					}
+				}
+			}
+		}
+		share(func(o *patOp) *[]byte { return &o.p.Mask })
+		share(func(o *patOp) *[]byte { return &o.p.Bytes })
 	}
 	var m *opcode.Matcher[*patOp]
 	var err error
@@ -174,7 +196,7 @@ func c19RunOn(c c19Case, strs [][]byte) (*eng.Fail, bool) {
 
 func init() {
 	checks["C19"] = eng.Check{
-		Rule: "patterns: every (bytes, mask) of length 1..2 over the byte alphabet {00,01,10,11} (two independent bit lanes; includes masks with zero last byte) plus empty / length-mismatched ones; every ordered set of <=2 patterns (quick) and <=3 patterns from a reduced pattern list (thorough: 3 from all length-1 patterns and a length-2 subset); NewMatcher must succeed iff all well formed and no two patterns are simultaneously matchable; on success Match(s) for every byte string s of length 0..3 over the alphabet must return the unique matching pattern or none. Every set is also run with 8 (thorough also 7 and 12) fully masked bytes appended to every pattern and input (patterns of 9..14 bytes, inputs with and without the last byte). Non-trivial = set that builds successfully.",
+		Rule: "patterns: every (bytes, mask) of length 1..2 over the byte alphabet {00,01,10,11} (two independent bit lanes; includes masks with zero last byte) plus empty / length-mismatched ones; every ordered set of <=2 patterns (quick) and <=3 patterns from a reduced pattern list (thorough: 3 from all length-1 patterns and a length-2 subset); NewMatcher must succeed iff all well formed and no two patterns are simultaneously matchable; on success Match(s) for every byte string s of length 0..3 over the alphabet must return the unique matching pattern or none. Every set is also run with 8 (thorough also 7 and 12) fully masked bytes appended to every pattern and input (patterns of 9..14 bytes, inputs with and without the last byte), and with masks / values that are prefixes of one another handed in as prefixes of one array. Non-trivial = set that builds successfully.",
 		Run: func(r *eng.Run) {
 			var pats []c19Pat
 			for _, b := range c19Alpha {
@@ -213,6 +235,7 @@ func init() {
 				do(c19Case{Pats: []c19Pat{pats[i]}, Suffix: 8})
 				for j := range pats {
 					do(c19Case{Pats: []c19Pat{pats[i], pats[j]}})
+					do(c19Case{Pats: []c19Pat{pats[i], pats[j]}, Shared: true})
 					do(c19Case{Pats: []c19Pat{pats[i], pats[j]}, Suffix: 8})
 					if !r.Quick() {
 						do(c19Case{Pats: []c19Pat{pats[i], pats[j]}, Suffix: 7})
@@ -234,6 +257,7 @@ func init() {
 				for j := range tri {
 					for k := range tri {
 						do(c19Case{Pats: []c19Pat{tri[i], tri[j], tri[k]}})
+						do(c19Case{Pats: []c19Pat{tri[i], tri[j], tri[k]}, Shared: true})
 						do(c19Case{Pats: []c19Pat{tri[i], tri[j], tri[k]}, Suffix: 8})
 					}
 				}
